@@ -8,6 +8,23 @@ anchored code of the path machinery:
   do_n                      -> checked to be `self.curpath = []`
   do_re                     -> rePath (the five appended segments)
   process_page              -> pageCtm (Rotate -> initial CTM table)
+  do_m do_l do_c do_v do_y  -> segAppend (segment letter + order of the appended operands; every operand
+                               must be guarded by safe_float / `is None`)
+  do_h                      -> checked to be `if self.curpath and self.curpath[-1][0] == "h": return; append(("h",))`
+  do_cm                     -> cmPremultiplies (`mult_matrix(matrix, self.ctm)` vs `mult_matrix(self.ctm, matrix)`)
+  _initial_color            -> initNoneFamily, initMaxComponents, initCmykFamily, initCmyk, initOneFamilies
+                               (the constants of the straight-line code; its shape is checked)
+  init_state                -> initStateResets (the interpreter attributes overwritten with a fresh value for
+                               every page / content: gstack ctm textstate graphicstate curpath argstack scs ncs)
+  do_W do_W_a               -> checked to have an empty body (docstring only): clipping does not paint
+  converter.PDFLayoutAnalyzer.paint_path (the straight-line tests of the single-sub-path branch):
+      `len(shape) > K and shape[-N:] == S and pts[-i] == pts[j]`, `shape = shape[:-M] + T; pts.pop()`
+                                            -> redundantMinLen, redundantSuffix, redundantPts, redundantCut, redundantTail
+      `shape in {..}` (line) / `shape in {..}` (rectangle)  -> lineShapes, rectShapes
+      `LTLine(.., pts[i], pts[j], ..)`                      -> linePts
+      `is_closed_loop = pts[i] == pts[j]`                   -> closedLoopPts
+      `has_square_coordinates = (..) or (..)`               -> has_square_coordinates
+      `LTRect(.., (*pts[i], *pts[j]), ..)`, `rect.pts = pts[:K]` -> rectCorners, rectPtsTake
 """
 import ast
 import os
@@ -178,8 +195,382 @@ def page_ctm(fn: ast.FunctionDef) -> str:
     return "def pageCtm (rotate : Int) (x0 y0 x1 y1 : Rat) : Matrix :=\n  " + "\n  else ".join(out) + "\n"
 
 
+# --------------------------------------------------------------------------- converter.paint_path
+
+def _name(e, ident=None):
+    return isinstance(e, ast.Name) and (ident is None or e.id == ident)
+
+
+def _int(e):
+    if isinstance(e, ast.Constant) and isinstance(e.value, int) and not isinstance(e.value, bool):
+        return e.value
+    if isinstance(e, ast.UnaryOp) and isinstance(e.op, ast.USub):
+        v = _int(e.operand)
+        return None if v is None else -v
+    return None
+
+
+def _pts_index(e, var="pts"):
+    """pts[K] -> K (may be negative)"""
+    if isinstance(e, ast.Subscript) and _name(e.value, var) and not isinstance(e.slice, ast.Slice):
+        return _int(e.slice)
+    return None
+
+
+def chars(s: str) -> str:
+    if not s or not all(c.isalnum() for c in s):
+        raise P.Untranslatable("shape string outside [a-zA-Z0-9]+: %r" % s)
+    return "[" + ", ".join("'%s'" % c for c in s) + "]"
+
+
+def shape_set(test) -> list:
+    """`shape in {"a", "b"}` -> ["a", "b"]"""
+    if not (isinstance(test, ast.Compare) and len(test.ops) == 1 and isinstance(test.ops[0], ast.In) and
+            _name(test.left, "shape") and isinstance(test.comparators[0], (ast.Set, ast.Tuple, ast.List))):
+        raise P.Untranslatable("paint_path: test is not `shape in {...}`")
+    elts = test.comparators[0].elts
+    if not all(isinstance(x, ast.Constant) and isinstance(x.value, str) for x in elts):
+        raise P.Untranslatable("paint_path: shape set is not a set of string literals")
+    return [x.value for x in elts]
+
+
+def eq_expr(e, names) -> str:
+    """The boolean expression of has_square_coordinates over the coordinate names."""
+    if isinstance(e, ast.BoolOp):
+        op = " ∧ " if isinstance(e.op, ast.And) else " ∨ "
+        return "(" + op.join(eq_expr(v, names) for v in e.values) + ")"
+    if isinstance(e, ast.Compare) and len(e.ops) == 1 and isinstance(e.ops[0], ast.Eq) and \
+            _name(e.left) and e.left.id in names and _name(e.comparators[0]) and e.comparators[0].id in names:
+        return f"({e.left.id} = {e.comparators[0].id})"
+    raise P.Untranslatable("has_square_coordinates: expression outside the subset: " + ast.dump(e))
+
+
+def paint_path_tests(fn: ast.FunctionDef) -> str:
+    out = []
+    # ---- the redundant closing `l`
+    red = None
+    chain = None
+    for s in ast.walk(fn):
+        if isinstance(s, ast.If) and isinstance(s.test, ast.BoolOp) and isinstance(s.test.op, ast.And) and \
+                len(s.test.values) == 3 and isinstance(s.test.values[0], ast.Compare) and \
+                isinstance(s.test.values[0].left, ast.Call) and _name(s.test.values[0].left.func, "len"):
+            if red is not None:
+                raise P.Untranslatable("paint_path: two redundant-l tests")
+            red = s
+        if isinstance(s, ast.If) and isinstance(s.test, ast.Compare) and isinstance(s.test.ops[0], ast.In) and \
+                _name(s.test.left, "shape") and chain is None:
+            chain = s
+    if red is None or chain is None:
+        raise P.Untranslatable("paint_path: redundant-l test / classification chain not found")
+    t0, t1, t2 = red.test.values
+    if not (len(t0.ops) == 1 and isinstance(t0.ops[0], ast.Gt) and len(t0.left.args) == 1 and
+            _name(t0.left.args[0], "shape") and _int(t0.comparators[0]) is not None and _int(t0.comparators[0]) >= 0):
+        raise P.Untranslatable("paint_path: not `len(shape) > K`")
+    if not (isinstance(t1, ast.Compare) and len(t1.ops) == 1 and isinstance(t1.ops[0], ast.Eq) and
+            isinstance(t1.left, ast.Subscript) and _name(t1.left.value, "shape") and
+            isinstance(t1.left.slice, ast.Slice) and t1.left.slice.upper is None and t1.left.slice.step is None and
+            isinstance(t1.comparators[0], ast.Constant) and isinstance(t1.comparators[0].value, str)):
+        raise P.Untranslatable("paint_path: not `shape[-N:] == S`")
+    suffix = t1.comparators[0].value
+    if _int(t1.left.slice.lower) != -len(suffix):
+        raise P.Untranslatable("paint_path: `shape[-N:] == S` with N != len(S)")
+    if not (isinstance(t2, ast.Compare) and len(t2.ops) == 1 and isinstance(t2.ops[0], ast.Eq)):
+        raise P.Untranslatable("paint_path: not `pts[-i] == pts[j]`")
+    i, j = _pts_index(t2.left), _pts_index(t2.comparators[0])
+    if i is None or j is None or i >= 0 or j < 0:
+        raise P.Untranslatable("paint_path: not `pts[-i] == pts[j]`")
+    b = red.body
+    ok = (len(b) == 2 and not red.orelse and isinstance(b[0], ast.Assign) and _name(b[0].targets[0], "shape") and
+          isinstance(b[0].value, ast.BinOp) and isinstance(b[0].value.op, ast.Add) and
+          isinstance(b[0].value.left, ast.Subscript) and _name(b[0].value.left.value, "shape") and
+          isinstance(b[0].value.left.slice, ast.Slice) and b[0].value.left.slice.lower is None and
+          b[0].value.left.slice.step is None and _int(b[0].value.left.slice.upper) is not None and
+          _int(b[0].value.left.slice.upper) < 0 and
+          isinstance(b[0].value.right, ast.Constant) and isinstance(b[0].value.right.value, str) and
+          isinstance(b[1], ast.Expr) and isinstance(b[1].value, ast.Call) and not b[1].value.args and
+          isinstance(b[1].value.func, ast.Attribute) and b[1].value.func.attr == "pop" and
+          _name(b[1].value.func.value, "pts"))
+    if not ok:
+        raise P.Untranslatable("paint_path: redundant-l body is not `shape = shape[:-M] + T; pts.pop()`")
+    out.append("/-- `len(shape) > redundantMinLen and shape[-N:] == redundantSuffix and pts[-i] == pts[j]`, "
+               "redundantPts = (i, j). -/\n")
+    out.append(f"def redundantMinLen : Nat := {_int(t0.comparators[0])}\n")
+    out.append(f"def redundantSuffix : List Char := {chars(suffix)}\n")
+    out.append(f"def redundantPts : Nat × Nat := ({-i}, {j})\n")
+    out.append("/-- `shape = shape[:-redundantCut] + redundantTail; pts.pop()`. -/\n")
+    out.append(f"def redundantCut : Nat := {-_int(b[0].value.left.slice.upper)}\n")
+    out.append(f"def redundantTail : List Char := {chars(b[0].value.right.value)}\n\n")
+    # ---- line / rectangle / curve
+    line_set = shape_set(chain.test)
+    if not (len(chain.orelse) == 1 and isinstance(chain.orelse[0], ast.If)):
+        raise P.Untranslatable("paint_path: no elif after the line test")
+    rect_if = chain.orelse[0]
+    rect_set = shape_set(rect_if.test)
+
+    def ctor_call(stmts, var, cls):
+        for s in stmts:
+            if isinstance(s, ast.Assign) and _name(s.targets[0], var) and isinstance(s.value, ast.Call) and \
+                    _name(s.value.func, cls):
+                return s.value
+        raise P.Untranslatable(f"paint_path: `{var} = {cls}(...)` not found")
+
+    def std_args(call, first_rest):
+        """(linewidth, <geometry...>, stroke, fill, evenodd, scolor, ncolor, path, dash) in the usual order."""
+        def gattr(e, a):
+            return isinstance(e, ast.Attribute) and e.attr == a and _name(e.value, "gstate")
+        args = list(call.args)
+        kw = {k.arg: k.value for k in call.keywords}
+        if not gattr(args[0], "linewidth"):
+            raise P.Untranslatable("paint_path: first constructor argument is not gstate.linewidth")
+        rest = args[first_rest:]
+        if len(rest) < 5 or not (_name(rest[0], "stroke") and _name(rest[1], "fill") and _name(rest[2], "evenodd")
+                                 and gattr(rest[3], "scolor") and gattr(rest[4], "ncolor")):
+            raise P.Untranslatable("paint_path: constructor flags/colours are not stroke, fill, evenodd, "
+                                   "gstate.scolor, gstate.ncolor")
+        path = rest[5] if len(rest) > 5 else kw.get("original_path")
+        dash = rest[6] if len(rest) > 6 else kw.get("dashing_style")
+        if not (_name(path, "transformed_path") and gattr(dash, "dash")):
+            raise P.Untranslatable("paint_path: original_path / dashing_style arguments")
+
+    line = ctor_call(chain.body, "line", "LTLine")
+    li, lj = _pts_index(line.args[1]), _pts_index(line.args[2])
+    if li is None or lj is None or li < 0 or lj < 0:
+        raise P.Untranslatable("paint_path: LTLine end points are not pts[i], pts[j]")
+    std_args(line, 3)
+    out.append("/-- `shape in {...}`: a single straight segment; `LTLine(.., pts[i], pts[j], ..)`. -/\n")
+    out.append("def lineShapes : List (List Char) := [" + ", ".join(chars(x) for x in line_set) + "]\n")
+    out.append(f"def linePts : Nat × Nat := ({li}, {lj})\n\n")
+    # rectangle branch
+    rb = rect_if.body
+    names = ["x0", "y0", "x1", "y1", "x2", "y2", "x3", "y3"]
+    d = rb[0]
+    ok = (isinstance(d, ast.Assign) and isinstance(d.targets[0], ast.Tuple) and _name(d.value, "pts") and
+          len(d.targets[0].elts) == 5 and
+          all(isinstance(t, ast.Tuple) and len(t.elts) == 2 and _name(t.elts[0], names[2 * k]) and
+              _name(t.elts[1], names[2 * k + 1]) for k, t in enumerate(d.targets[0].elts[:4])) and
+          _name(d.targets[0].elts[4]))
+    if not ok:
+        raise P.Untranslatable("paint_path: not `(x0, y0), (x1, y1), (x2, y2), (x3, y3), _ = pts`")
+    cl = sq = None
+    for s in rb[1:]:
+        if isinstance(s, ast.Assign) and _name(s.targets[0], "is_closed_loop"):
+            cl = s.value
+        if isinstance(s, ast.Assign) and _name(s.targets[0], "has_square_coordinates"):
+            sq = s.value
+    if cl is None or sq is None:
+        raise P.Untranslatable("paint_path: is_closed_loop / has_square_coordinates not found")
+    if not (isinstance(cl, ast.Compare) and len(cl.ops) == 1 and isinstance(cl.ops[0], ast.Eq)):
+        raise P.Untranslatable("paint_path: is_closed_loop is not pts[i] == pts[j]")
+    ci, cj = _pts_index(cl.left), _pts_index(cl.comparators[0])
+    if ci is None or cj is None or ci < 0 or cj < 0:
+        raise P.Untranslatable("paint_path: is_closed_loop is not pts[i] == pts[j]")
+    inner = [s for s in rb if isinstance(s, ast.If)]
+    if len(inner) != 1 or not (isinstance(inner[0].test, ast.BoolOp) and isinstance(inner[0].test.op, ast.And) and
+                               len(inner[0].test.values) == 2 and _name(inner[0].test.values[0], "is_closed_loop") and
+                               _name(inner[0].test.values[1], "has_square_coordinates")):
+        raise P.Untranslatable("paint_path: not `if is_closed_loop and has_square_coordinates:`")
+    rect = ctor_call(inner[0].body, "rect", "LTRect")
+    bb = rect.args[1]
+    if not (isinstance(bb, ast.Tuple) and len(bb.elts) == 2 and all(isinstance(x, ast.Starred) for x in bb.elts)):
+        raise P.Untranslatable("paint_path: LTRect bbox is not (*pts[i], *pts[j])")
+    ri, rj = _pts_index(bb.elts[0].value), _pts_index(bb.elts[1].value)
+    if ri is None or rj is None or ri < 0 or rj < 0:
+        raise P.Untranslatable("paint_path: LTRect bbox is not (*pts[i], *pts[j])")
+    std_args(rect, 2)
+    take = None
+    for s in inner[0].body:
+        if isinstance(s, ast.Assign) and isinstance(s.targets[0], ast.Attribute) and s.targets[0].attr == "pts" and \
+                _name(s.targets[0].value, "rect"):
+            v = s.value
+            if isinstance(v, ast.Subscript) and _name(v.value, "pts") and isinstance(v.slice, ast.Slice) and \
+                    v.slice.lower is None and v.slice.step is None and _int(v.slice.upper) is not None and \
+                    _int(v.slice.upper) >= 0:
+                take = _int(v.slice.upper)
+    if take is None:
+        raise P.Untranslatable("paint_path: `rect.pts = pts[:K]` not found")
+    for branch, what in ((inner[0].orelse, "non-rectangle"), (rect_if.orelse, "general")):
+        c = ctor_call(branch, "curve", "LTCurve")
+        if not _name(c.args[1], "pts"):
+            raise P.Untranslatable(f"paint_path: {what} LTCurve does not take pts")
+        std_args(c, 2)
+    out.append("/-- `shape in {...}`: four straight segments, closed. -/\n")
+    out.append("def rectShapes : List (List Char) := [" + ", ".join(chars(x) for x in rect_set) + "]\n")
+    out.append("/-- `is_closed_loop = pts[i] == pts[j]`. -/\n")
+    out.append(f"def closedLoopPts : Nat × Nat := ({ci}, {cj})\n")
+    out.append("/-- `has_square_coordinates` over `(x0, y0), (x1, y1), (x2, y2), (x3, y3), _ = pts`. -/\n")
+    out.append("def has_square_coordinates (" + " ".join(names) + " : Rat) : Bool :=\n  decide " +
+               eq_expr(sq, set(names)) + "\n")
+    out.append("/-- `LTRect(.., (*pts[i], *pts[j]), ..)` and `rect.pts = pts[:rectPtsTake]`. -/\n")
+    out.append(f"def rectCorners : Nat × Nat := ({ri}, {rj})\n")
+    out.append(f"def rectPtsTake : Nat := {take}\n")
+    return "".join(out)
+
+
+# --------------------------------------------------------------------------- path construction operators
+
+SEG_METHODS = ["do_m", "do_l", "do_c", "do_v", "do_y"]
+
+
+def seg_append(fn: ast.FunctionDef):
+    """(letter, [index of the parameter appended at each position]) for
+    `p_f = safe_float(p) ...; if p_f is None or ...: <warn> else: point = (L, p_f, ...); self.curpath.append(point)`."""
+    params = [a.arg for a in fn.args.args[1:]]
+    body = body_wo_doc(fn)
+    conv = {}
+    i = 0
+    while i < len(body) and isinstance(body[i], ast.Assign):
+        a = body[i]
+        v = a.value
+        if not (_name(a.targets[0]) and isinstance(v, ast.Call) and _name(v.func, "safe_float") and
+                len(v.args) == 1 and _name(v.args[0]) and v.args[0].id in params and not v.keywords):
+            raise P.Untranslatable(f"{fn.name}: statement is not `p_f = safe_float(p)`")
+        conv[a.targets[0].id] = params.index(v.args[0].id)
+        i += 1
+    if len(conv) != len(params) or sorted(conv.values()) != list(range(len(params))) or i != len(body) - 1 or \
+            not isinstance(body[i], ast.If):
+        raise P.Untranslatable(f"{fn.name}: not every operand is converted with safe_float exactly once")
+    node = body[i]
+    tests = node.test.values if isinstance(node.test, ast.BoolOp) and isinstance(node.test.op, ast.Or) else [node.test]
+    guarded = set()
+    for t in tests:
+        if not (isinstance(t, ast.Compare) and len(t.ops) == 1 and isinstance(t.ops[0], ast.Is) and _name(t.left) and
+                isinstance(t.comparators[0], ast.Constant) and t.comparators[0].value is None and t.left.id in conv):
+            raise P.Untranslatable(f"{fn.name}: guard is not a disjunction of `p_f is None`")
+        guarded.add(t.left.id)
+    if guarded != set(conv):
+        raise P.Untranslatable(f"{fn.name}: the guard does not test {sorted(set(conv) - guarded)}")
+    for st in node.body:        # the warning branch must not touch the path
+        for x in ast.walk(st):
+            if isinstance(x, ast.Attribute) and x.attr == "curpath":
+                raise P.Untranslatable(f"{fn.name}: the warning branch touches curpath")
+    e = node.orelse
+    ok = (len(e) == 2 and isinstance(e[0], ast.Assign) and _name(e[0].targets[0], "point") and
+          isinstance(e[0].value, ast.Tuple) and isinstance(e[1], ast.Expr) and isinstance(e[1].value, ast.Call) and
+          isinstance(e[1].value.func, ast.Attribute) and e[1].value.func.attr == "append" and
+          self_attr(e[1].value.func.value, "curpath") and len(e[1].value.args) == 1 and
+          _name(e[1].value.args[0], "point"))
+    if not ok:
+        raise P.Untranslatable(f"{fn.name}: else branch is not `point = (...); self.curpath.append(point)`")
+    t = e[0].value.elts
+    if not (isinstance(t[0], ast.Constant) and isinstance(t[0].value, str) and len(t[0].value) == 1 and
+            all(_name(x) and x.id in conv for x in t[1:])):
+        raise P.Untranslatable(f"{fn.name}: appended tuple is not (letter, converted operands...)")
+    return t[0].value, [conv[x.id] for x in t[1:]]
+
+
+def check_do_h(fn: ast.FunctionDef):
+    b = body_wo_doc(fn)
+    ok = (len(b) == 2 and isinstance(b[0], ast.If) and not b[0].orelse and len(b[0].body) == 1 and
+          isinstance(b[0].body[0], ast.Return) and b[0].body[0].value is None and
+          isinstance(b[0].test, ast.BoolOp) and isinstance(b[0].test.op, ast.And) and len(b[0].test.values) == 2 and
+          self_attr(b[0].test.values[0], "curpath") and
+          ast.unparse(b[0].test.values[1]) in ("self.curpath[-1][0] == 'h'",) and
+          ast.unparse(b[1]) in ("self.curpath.append(('h',))",))
+    if not ok:
+        raise P.Untranslatable("do_h is not `if self.curpath and self.curpath[-1][0] == 'h': return; "
+                               "self.curpath.append(('h',))`")
+
+
+def cm_order(fn: ast.FunctionDef) -> bool:
+    """True when do_cm sets `self.ctm = mult_matrix(matrix, self.ctm)` with matrix = safe_matrix(all six operands
+    in order)."""
+    params = [a.arg for a in fn.args.args[1:]]
+    b = body_wo_doc(fn)
+    ok = (len(b) == 2 and isinstance(b[0], ast.Assign) and _name(b[0].targets[0], "matrix") and
+          isinstance(b[0].value, ast.Call) and _name(b[0].value.func, "safe_matrix") and
+          [x.id if _name(x) else None for x in b[0].value.args] == params and len(params) == 6 and
+          isinstance(b[1], ast.If) and ast.unparse(b[1].test) == "matrix is None")
+    if not ok:
+        raise P.Untranslatable("do_cm: not `matrix = safe_matrix(a1, .., f1); if matrix is None: .. else: ..`")
+    for st in b[1].body:
+        for x in ast.walk(st):
+            if isinstance(x, ast.Attribute) and x.attr == "ctm":
+                raise P.Untranslatable("do_cm: the warning branch touches the CTM")
+    e = b[1].orelse
+    if not (len(e) >= 1 and isinstance(e[0], ast.Assign) and self_attr(e[0].targets[0], "ctm")):
+        raise P.Untranslatable("do_cm: else branch does not assign self.ctm")
+    src = ast.unparse(e[0].value)
+    if src == "mult_matrix(matrix, self.ctm)":
+        pre = True
+    elif src == "mult_matrix(self.ctm, matrix)":
+        pre = False
+    else:
+        raise P.Untranslatable("do_cm: self.ctm = " + src)
+    for st in e[1:]:
+        if ast.unparse(st) != "self.device.set_ctm(self.ctm)":
+            raise P.Untranslatable("do_cm: unexpected statement " + ast.unparse(st))
+    return pre
+
+
+def initial_color(fn: ast.FunctionDef) -> str:
+    """`_initial_color`: n = cs.ncomponents; if cs.name == P or not isinstance(n, int) or n < 1 or n > K: return None;
+    if cs.name == C: return (..); v = 1.0 if cs.name in (..) else 0.0; if n == 1: return v; return tuple([v] * n)"""
+    b = body_wo_doc(fn)
+    if len(b) != 6 or ast.unparse(b[0]) != "n = cs.ncomponents":
+        raise P.Untranslatable("_initial_color: unexpected shape")
+    t = b[1]
+    if not (isinstance(t, ast.If) and not t.orelse and ast.unparse(t.body[-1]) == "return None" and
+            isinstance(t.test, ast.BoolOp) and isinstance(t.test.op, ast.Or) and len(t.test.values) == 4):
+        raise P.Untranslatable("_initial_color: first test")
+    v0, v1, v2, v3 = t.test.values
+    if not (isinstance(v0, ast.Compare) and ast.unparse(v0.left) == "cs.name" and isinstance(v0.ops[0], ast.Eq) and
+            isinstance(v0.comparators[0], ast.Constant) and isinstance(v0.comparators[0].value, str) and
+            ast.unparse(v1) == "not isinstance(n, int)" and ast.unparse(v2) == "n < 1" and
+            isinstance(v3, ast.Compare) and _name(v3.left, "n") and isinstance(v3.ops[0], ast.Gt) and
+            _int(v3.comparators[0]) is not None and _int(v3.comparators[0]) >= 1):
+        raise P.Untranslatable("_initial_color: not `cs.name == P or not isinstance(n, int) or n < 1 or n > K`")
+    none_family, kmax = v0.comparators[0].value, _int(v3.comparators[0])
+    c = b[2]
+    if not (isinstance(c, ast.If) and not c.orelse and len(c.body) == 1 and isinstance(c.body[0], ast.Return) and
+            isinstance(c.body[0].value, ast.Tuple) and isinstance(c.test, ast.Compare) and
+            ast.unparse(c.test.left) == "cs.name" and isinstance(c.test.ops[0], ast.Eq) and
+            isinstance(c.test.comparators[0], ast.Constant) and
+            all(isinstance(x, ast.Constant) and isinstance(x.value, float) and x.value == int(x.value)
+                for x in c.body[0].value.elts)):
+        raise P.Untranslatable("_initial_color: CMYK branch")
+    cmyk_family = c.test.comparators[0].value
+    cmyk = [int(x.value) for x in c.body[0].value.elts]
+    a = b[3]
+    if not (isinstance(a, ast.Assign) and _name(a.targets[0], "v") and isinstance(a.value, ast.IfExp) and
+            ast.unparse(a.value.body) == "1.0" and ast.unparse(a.value.orelse) == "0.0" and
+            isinstance(a.value.test, ast.Compare) and ast.unparse(a.value.test.left) == "cs.name" and
+            isinstance(a.value.test.ops[0], ast.In) and isinstance(a.value.test.comparators[0], (ast.Tuple, ast.Set, ast.List))
+            and all(isinstance(x, ast.Constant) and isinstance(x.value, str) for x in a.value.test.comparators[0].elts)):
+        raise P.Untranslatable("_initial_color: not `v = 1.0 if cs.name in (...) else 0.0`")
+    ones = [x.value for x in a.value.test.comparators[0].elts]
+    if ast.unparse(b[4]) != "if n == 1:\n    return v" or \
+            ast.unparse(b[5]) not in ("return cast(Color, tuple([v] * n))", "return tuple([v] * n)"):
+        raise P.Untranslatable("_initial_color: tail is not `if n == 1: return v; return tuple([v] * n)`")
+    return ("/-- `_initial_color`: no colour for `initNoneFamily` and for n < 1 or n > initMaxComponents;\n"
+            "`initCmyk` for `initCmykFamily`; n ones for `initOneFamilies`, n zeros otherwise. -/\n"
+            f"def initNoneFamily : String := {P.lean_string(none_family)}\n"
+            f"def initMaxComponents : Nat := {kmax}\n"
+            f"def initCmykFamily : String := {P.lean_string(cmyk_family)}\n"
+            f"def initCmyk : List Rat := [{', '.join(str(x) for x in cmyk)}]\n"
+            f"def initOneFamilies : List String := [{', '.join(P.lean_string(x) for x in ones)}]\n\n")
+
+
+def init_state_resets(fn: ast.FunctionDef) -> list:
+    """Attributes `self.X` that init_state overwrites UNCONDITIONALLY with a value that does not depend on the
+    interpreter's previous state ([], the ctm parameter, a fresh PDFTextState()/PDFGraphicState(), None)."""
+    fresh = {"[]", "ctm", "PDFTextState()", "PDFGraphicState()", "None"}
+    res = []
+    for st in body_wo_doc(fn):
+        tgt = val = None
+        if isinstance(st, ast.Assign) and len(st.targets) == 1:
+            tgt, val = st.targets[0], st.value
+        elif isinstance(st, ast.AnnAssign) and st.value is not None:
+            tgt, val = st.target, st.value
+        if tgt is not None and self_attr(tgt):
+            if ast.unparse(val) not in fresh:
+                raise P.Untranslatable(f"init_state: self.{tgt.attr} = {ast.unparse(val)} is not a fresh value")
+            if tgt.attr not in res:
+                res.append(tgt.attr)
+    return res
+
+
 def generate(lean_dir: str):
-    out = [P.HEADER.format(src="pdfminer/utils.py, pdfcolor.py, pdfinterp.py", ns="PathsGen")]
+    out = [P.HEADER.format(src="pdfminer/utils.py, pdfcolor.py, pdfinterp.py, converter.py", ns="PathsGen")]
     # --- matrix helpers
     um = P.parse_file("pdfminer/utils.py")
     known = {}
@@ -232,9 +623,41 @@ def generate(lean_dir: str):
     if not (len(b) == 1 and is_clear_curpath(b[0])):
         raise P.Untranslatable("do_n is not `self.curpath = []`")
     out.append("/-- `do_n` is exactly `self.curpath = []`. -/\ndef nClearsPath : Bool := true\n\n")
+    rows = []
+    for m in SEG_METHODS:
+        letter, idx = seg_append(methods[m])
+        rows.append(f"({P.lean_string(op_name(m))}, ({P.lean_string(letter)}, [{', '.join(str(i) for i in idx)}]))")
+    out.append("/-- `do_m do_l do_c do_v do_y`: operator -> (segment letter, for each appended value the index of the\n"
+               "operand it is converted from); every operand is guarded by `safe_float(..) is None`. -/\n")
+    out.append("def segAppend : List (String × (String × List Nat)) :=\n  [" + ", ".join(rows) + "]\n\n")
+    check_do_h(methods["do_h"])
+    out.append("/-- `do_h` appends `(\"h\",)` unless the path already ends in `h`. -/\ndef hIdempotent : Bool := true\n\n")
+    out.append("/-- `do_cm`: `self.ctm = mult_matrix(matrix, self.ctm)` (true) or `mult_matrix(self.ctm, matrix)` (false). -/\n"
+               f"def cmPremultiplies : Bool := {str(cm_order(methods['do_cm'])).lower()}\n\n")
+    out.append(initial_color(methods["_initial_color"]))
+    out.append("/-- `init_state` (run by `render_contents` for every page): the interpreter attributes it overwrites\n"
+               "with a fresh value. -/\ndef initStateResets : List String :=\n  [" +
+               ", ".join(P.lean_string(x) for x in init_state_resets(methods["init_state"])) + "]\n\n")
+    for w in ("do_W", "do_W_a"):
+        if w not in methods or body_wo_doc(methods[w]) not in ([],) and \
+                not all(isinstance(x, ast.Pass) for x in body_wo_doc(methods[w])):
+            raise P.Untranslatable(f"{w} is not an empty method (docstring / pass only)")
+    out.append("/-- `do_W` and `do_W_a` have an empty body: clipping neither paints nor touches the path. -/\n"
+               "def clipIsNoOp : Bool := true\n\n")
     out.append(re_path(methods["do_re"]))
     out.append("\n")
     out.append(page_ctm(methods["process_page"]))
+    out.append("\n")
+    conv = P.parse_file("pdfminer/converter.py")
+    pp = None
+    for node in conv.body:
+        if isinstance(node, ast.ClassDef) and node.name == "PDFLayoutAnalyzer":
+            for n in node.body:
+                if isinstance(n, ast.FunctionDef) and n.name == "paint_path":
+                    pp = n
+    if pp is None:
+        raise P.Untranslatable("PDFLayoutAnalyzer.paint_path not found")
+    out.append(paint_path_tests(pp))
     out.append("\nend PdfVerif.Gen.PathsGen\n")
     path = os.path.join(lean_dir, "PdfVerif", "Gen", "PathsGen.lean")
     P.write_if_changed(path, "".join(out))
